@@ -55,6 +55,7 @@ class Ctx(object):
         self.rule = ""
         self.exhaustive = None
         self.extra = {}
+        self.replay_mode = False  # --replay runs do not overwrite the evidence of the last full run
         self.known = [k for k in load_known() if k.get("property") == pid and k.get("status") == "open"]
         self.stale_known = []
 
@@ -292,8 +293,9 @@ class Ctx(object):
             "wall_s": round(wall, 2),
             "violations": total_viol,
         }
-        os.makedirs(EVID, exist_ok=True)
-        with open(os.path.join(EVID, self.pid + ".json"), "w") as f:
+        evid = os.path.join(VERIF, ".work", "evidence_replay") if self.replay_mode else EVID
+        os.makedirs(evid, exist_ok=True)
+        with open(os.path.join(evid, self.pid + ".json"), "w") as f:
             json.dump(ev, f, indent=1, default=str)
         print(
             "%s %s: states=%d transitions=%d traces=%d evaluations=%d nontrivial=%d violations=%d known=%d drift=%d wall=%.1fs"
